@@ -160,18 +160,19 @@ def regenState (cfg : Cfg) (s : State) (k : Uri) (f : FileRef) (file : File) : S
 def reuseState (s : State) (k : Uri) (f : FileRef) (m : ModFile) : State :=
   { s with nextId := s.nextId + 1, made := s.made ++ [⟨s.nextId, k, some f, m.content, m.time⟩] }
 
-/-- the module file of `k` does not stand in the way of compiling `file` -/
-def needsRegen (cfg : Cfg) (s : State) (k : Uri) (file : File) : Prop :=
-  cfg.moddir = true → ∀ m, s.mods k = some m → m.time < file.mtime
+/-- the module file of `k` does not stand in the way of compiling `file` from `f`: there is none, or it is older
+than the source, or it was generated from another source file -/
+def needsRegen (cfg : Cfg) (s : State) (k : Uri) (f : FileRef) (file : File) : Prop :=
+  cfg.moddir = true → ∀ m, s.mods k = some m → m.time < file.mtime ∨ m.src ≠ f
 
 inductive ConstructCase (cfg : Cfg) (s : State) (k : Uri) (f : FileRef) : Except Exc Tmpl × State → Prop
   | nofile : s.fs f = none → ConstructCase cfg s k f (.error .os, { s with nextId := s.nextId + 1 })
-  | broken (file : File) : s.fs f = some file → file.broken = true → needsRegen cfg s k file →
+  | broken (file : File) : s.fs f = some file → file.broken = true → needsRegen cfg s k f file →
       ConstructCase cfg s k f (.error .compile, { s with nextId := s.nextId + 1 })
-  | regen (file : File) : s.fs f = some file → file.broken = false → needsRegen cfg s k file →
+  | regen (file : File) : s.fs f = some file → file.broken = false → needsRegen cfg s k f file →
       ConstructCase cfg s k f (.ok ⟨s.nextId, k, some f, file.content, s.clock⟩, regenState cfg s k f file)
   | reuse (file : File) (m : ModFile) : s.fs f = some file → cfg.moddir = true → s.mods k = some m →
-      file.mtime ≤ m.time →
+      file.mtime ≤ m.time → m.src = f →
       ConstructCase cfg s k f (.ok ⟨s.nextId, k, some f, m.content, m.time⟩, reuseState s k f m)
 
 theorem construct_cases (cfg : Cfg) (s : State) (k : Uri) (f : FileRef) :
@@ -181,40 +182,48 @@ theorem construct_cases (cfg : Cfg) (s : State) (k : Uri) (f : FileRef) :
   | none => exact .nofile hf
   | some file =>
     simp only
+    -- the two outcomes of `regenerate`
+    have hregen : ∀ (hr : needsRegen cfg s k f file),
+        ConstructCase cfg s k f
+          (if file.broken = true then (.error .compile, { s with nextId := s.nextId + 1 })
+           else (.ok ⟨s.nextId, k, some f, file.content, s.clock⟩,
+             { s with nextId := s.nextId + 1,
+                      mods := if cfg.moddir = true then setMod s.mods k (some ⟨f, file.content, s.clock⟩) else s.mods,
+                      made := s.made ++ [⟨s.nextId, k, some f, file.content, s.clock⟩] })) := by
+      intro hr
+      cases hb : file.broken with
+      | true => simp only [if_true]; exact .broken file hf hb hr
+      | false =>
+        simp only [Bool.false_eq_true, if_false]
+        exact .regen file hf hb hr
     cases hmd : cfg.moddir with
     | false =>
       simp only [Bool.false_eq_true, if_false]
-      cases hb : file.broken with
-      | true => simp only [if_true]; exact .broken file hf hb (by intro h; simp [hmd] at h)
-      | false =>
-        simp only [Bool.false_eq_true, if_false]
-        have := ConstructCase.regen (cfg := cfg) (s := s) (k := k) (f := f) file hf hb (by intro h; simp [hmd] at h)
-        simpa [regenState, hmd] using this
+      have := hregen (by intro h; simp [hmd] at h)
+      simpa [hmd] using this
     | true =>
       simp only [if_true]
       cases hm : s.mods k with
       | none =>
         simp only
-        cases hb : file.broken with
-        | true => simp only [if_true]; exact .broken file hf hb (by intro _ m h; simp [hm] at h)
-        | false =>
-          simp only [Bool.false_eq_true, if_false]
-          have := ConstructCase.regen (cfg := cfg) (s := s) (k := k) (f := f) file hf hb (by intro _ m h; simp [hm] at h)
-          simpa [regenState, hmd] using this
+        have := hregen (by intro _ m h; simp [hm] at h)
+        simpa [hmd] using this
       | some m =>
         simp only
         by_cases hlt : m.time < file.mtime
         · simp only [hlt, if_true]
-          have hreg : needsRegen cfg s k file := by
-            intro _ m' h; rw [hm] at h; injection h with h; subst h; exact hlt
-          cases hb : file.broken with
-          | true => simp only [if_true]; exact .broken file hf hb hreg
-          | false =>
-            simp only [Bool.false_eq_true, if_false]
-            have := ConstructCase.regen (cfg := cfg) (s := s) (k := k) (f := f) file hf hb hreg
-            simpa [regenState, hmd] using this
+          have := hregen (by intro _ m' h; rw [hm] at h; injection h with h; subst h; exact Or.inl hlt)
+          simpa [hmd] using this
         · simp only [hlt, if_false]
-          exact .reuse file m hf hmd hm (Nat.le_of_not_lt hlt)
+          by_cases hsrc : m.src = f
+          · have : (moduleChecksSourceName && m.src != f) = false := by simp [hsrc]
+            simp only [this, Bool.false_eq_true, if_false]
+            exact .reuse file m hf hmd hm (Nat.le_of_not_lt hlt) hsrc
+          · have : (moduleChecksSourceName && m.src != f) = true := by
+              simp [module_checks_source_name, hsrc]
+            simp only [this, if_true]
+            have := hregen (by intro _ m' h; rw [hm] at h; injection h with h; subst h; exact Or.inr hsrc)
+            simpa [hmd] using this
 
 theorem inv_regenState {cfg : Cfg} {s : State} (h : Inv cfg s) (k : Uri) (f : FileRef) (file : File) :
     Inv cfg (regenState cfg s k f file) := by
@@ -254,49 +263,59 @@ theorem construct_post (cfg : Cfg) (s : State) (k : Uri) (f : FileRef) :
     refine ⟨fun h => inv_regenState h k f file, rfl, rfl, rfl, rfl, rfl, ?_⟩
     intro t h; injection h with h; subst h
     simp [regenState]
-  | reuse file m hf hmd hm hle =>
+  | reuse file m hf hmd hm hle hsrc =>
     refine ⟨fun h => inv_reuseState h k f hm, rfl, rfl, rfl, rfl, rfl, ?_⟩
     intro t h; injection h with h; subst h
     simp [reuseState]
 
 /-! ## `_load`, `_check`, `get_template` -/
 
+theorem loadFresh_ok {cfg : Cfg} {s s' : State} {k : Uri} {f : FileRef} {t : Tmpl}
+    (hc : construct cfg s k f = (.ok t, s')) : loadFresh cfg s k f = (.ok t, setItem cfg s' k t) := by
+  simp [loadFresh, hc]
+
+theorem loadFresh_err {cfg : Cfg} {s s' : State} {k : Uri} {f : FileRef} {e : Exc}
+    (hc : construct cfg s k f = (.error e, s')) :
+    loadFresh cfg s k f = (.error e, { s' with coll := erase s'.coll k }) := by
+  simp [loadFresh, hc]
+
+theorem load_of_none {cfg : Cfg} {s : State} {k : Uri} (f : FileRef) (h : get? s.coll k = none) :
+    load cfg s k f = loadFresh cfg s k f := by
+  simp [load, h]
+
 theorem load_ok {cfg : Cfg} {s s' : State} {k : Uri} {f : FileRef} {t : Tmpl} (h : get? s.coll k = none)
     (hc : construct cfg s k f = (.ok t, s')) : load cfg s k f = (.ok t, setItem cfg s' k t) := by
-  simp [load, h, hc]
+  rw [load_of_none f h]; exact loadFresh_ok hc
 
 theorem load_err {cfg : Cfg} {s s' : State} {k : Uri} {f : FileRef} {e : Exc} (h : get? s.coll k = none)
     (hc : construct cfg s k f = (.error e, s')) :
     load cfg s k f = (.error e, { s' with coll := erase s'.coll k }) := by
-  simp [load, h, hc]
+  rw [load_of_none f h]; exact loadFresh_err hc
 
-theorem inv_load {cfg : Cfg} {s : State} (h : Inv cfg s) (k : Uri) (f : FileRef) : Inv cfg (load cfg s k f).2 := by
-  unfold load
+theorem inv_loadFresh {cfg : Cfg} {s : State} (h : Inv cfg s) (k : Uri) (f : FileRef) :
+    Inv cfg (loadFresh cfg s k f).2 := by
+  unfold loadFresh
+  have hp := construct_post cfg s k f
   split
-  · exact inv_stampHit h k
-  · have hp := construct_post cfg s k f
-    split
-    · rename_i t s' heq
-      rw [heq] at hp
-      exact inv_setItem (hp.inv h) k (hp.ok t rfl).1
-    · rename_i e s' heq
-      rw [heq] at hp
-      exact inv_erase (hp.inv h) k
+  · rename_i t s' heq
+    rw [heq] at hp
+    exact inv_setItem (hp.inv h) k (hp.ok t rfl).1
+  · rename_i e s' heq
+    rw [heq] at hp
+    exact inv_erase (hp.inv h) k
 
-theorem load_fs (cfg : Cfg) (s : State) (k : Uri) (f : FileRef) :
-    (load cfg s k f).2.fs = s.fs ∧ (load cfg s k f).2.clock = s.clock := by
-  unfold load
+theorem loadFresh_fs (cfg : Cfg) (s : State) (k : Uri) (f : FileRef) :
+    (loadFresh cfg s k f).2.fs = s.fs ∧ (loadFresh cfg s k f).2.clock = s.clock := by
+  unfold loadFresh
+  have hp := construct_post cfg s k f
   split
-  · exact ⟨rfl, rfl⟩
-  · have hp := construct_post cfg s k f
-    split
-    · rename_i t s' heq; rw [heq] at hp
-      refine ⟨?_, ?_⟩
-      · have : (setItem cfg s' k t).fs = s'.fs := by unfold setItem; split <;> rfl
-        rw [this]; exact hp.fs
-      · have : (setItem cfg s' k t).clock = s'.clock := by unfold setItem; split <;> rfl
-        rw [this]; exact hp.clock
-    · rename_i e s' heq; rw [heq] at hp; exact ⟨hp.fs, hp.clock⟩
+  · rename_i t s' heq; rw [heq] at hp
+    refine ⟨?_, ?_⟩
+    · have : (setItem cfg s' k t).fs = s'.fs := by unfold setItem; split <;> rfl
+      rw [this]; exact hp.fs
+    · have : (setItem cfg s' k t).clock = s'.clock := by unfold setItem; split <;> rfl
+      rw [this]; exact hp.clock
+  · rename_i e s' heq; rw [heq] at hp; exact ⟨hp.fs, hp.clock⟩
 
 theorem inv_check {cfg : Cfg} {s : State} (h : Inv cfg s) (k : Uri) (t : Tmpl) : Inv cfg (check cfg s k t).2 := by
   unfold check
@@ -306,7 +325,7 @@ theorem inv_check {cfg : Cfg} {s : State} (h : Inv cfg s) (k : Uri) (t : Tmpl) :
     · exact inv_erase h k
     · split
       · exact h
-      · have hl := inv_load (inv_erase h k) k (by assumption)
+      · have hl := inv_loadFresh (inv_erase h k) k (by assumption)
         split
         · rename_i s' heq
           rw [heq] at hl; exact inv_erase hl k
@@ -325,10 +344,27 @@ theorem check_fs (cfg : Cfg) (s : State) (k : Uri) (t : Tmpl) :
       simp only
       split
       · exact ⟨rfl, rfl⟩
-      · have hl := load_fs cfg { s with coll := erase s.coll k } k f
+      · have hl := loadFresh_fs cfg { s with coll := erase s.coll k } k f
         split
         · rename_i s' heq; rw [heq] at hl; exact hl
         · exact hl
+
+theorem inv_load {cfg : Cfg} {s : State} (h : Inv cfg s) (k : Uri) (f : FileRef) : Inv cfg (load cfg s k f).2 := by
+  unfold load
+  split
+  · split
+    · exact inv_check (inv_stampHit h k) k _
+    · exact inv_stampHit h k
+  · exact inv_loadFresh h k f
+
+theorem load_fs (cfg : Cfg) (s : State) (k : Uri) (f : FileRef) :
+    (load cfg s k f).2.fs = s.fs ∧ (load cfg s k f).2.clock = s.clock := by
+  unfold load
+  split
+  · split
+    · exact check_fs cfg (stampHit s k) k _
+    · exact ⟨rfl, rfl⟩
+  · exact loadFresh_fs cfg s k f
 
 theorem inv_getTemplate {cfg : Cfg} {s : State} (h : Inv cfg s) (k : Uri) : Inv cfg (getTemplate cfg s k).2 := by
   unfold getTemplate
